@@ -55,6 +55,21 @@ theorem aGet_none_of_not_mem {β : Type} (m : List (Nat × β)) (k : Nat) (h : k
   | none => rfl
   | some v => exact absurd (List.mem_map.mpr ⟨(k, v), aGet_some_mem _ _ _ hg, rfl⟩) h
 
+theorem aGet_some_of_mem_keys {β : Type} (m : List (Nat × β)) (k : Nat) (h : k ∈ m.map (·.1)) :
+    ∃ v, aGet m k = some v := by
+  induction m with
+  | nil => simp at h
+  | cons p r ih =>
+    obtain ⟨x, y⟩ := p
+    simp only [aGet]
+    by_cases e : x = k
+    · exact ⟨y, by simp [e]⟩
+    · simp only [e, ↓reduceIte]
+      simp only [List.map_cons, List.mem_cons] at h
+      rcases h with h | h
+      · exact absurd h.symm e
+      · exact ih h
+
 theorem mem_keys_of_aGet {β : Type} (m : List (Nat × β)) (k : Nat) (v : β) (h : aGet m k = some v) :
     k ∈ m.map (·.1) :=
   List.mem_map.mpr ⟨(k, v), aGet_some_mem _ _ _ h, rfl⟩
@@ -260,6 +275,81 @@ theorem costep_pair (c : Coord) (op : CoOp) : ∃ cops, (costep c op).1.pair = c
   | saveLoad =>
     exact ⟨[.serializeRestore, .gNew], rfl⟩
   | doom tx => exact ⟨[], rfl⟩
+
+/-- the single-transaction end-of-transaction operations and the transaction they end -/
+def endOf : CoOp → Option Nat
+  | .commit tx => some tx
+  | .abort tx => some tx
+  | .completeCommit tx => some tx
+  | .completeAbort tx => some tx
+  | .forceResolve tx _ => some tx
+  | _ => none
+
+/-- an end-of-transaction operation that answers `ok` ran the end-of-transaction sequence of a
+    pending transaction (all five single-transaction sites) -/
+theorem end_ok_runs_finish (c : Coord) (op : CoOp) (tx : Nat) (he : endOf op = some tx)
+    (hok : (costep c op).2 = .ok) : ∃ p, aGet c.pending tx = some p ∧ (costep c op).1 = c.finish tx p := by
+  cases op with
+  | commit t =>
+    simp only [endOf, Option.some.injEq] at he; subst he
+    simp only [costep] at hok ⊢
+    cases hp : aGet c.pending t with
+    | none => simp [hp] at hok
+    | some p =>
+      simp only [hp] at hok ⊢
+      by_cases e : p.phase ≠ .prepared
+      · rw [if_pos e] at hok; cases hok
+      · rw [if_neg e]; exact ⟨p, rfl, rfl⟩
+  | abort t =>
+    simp only [endOf, Option.some.injEq] at he; subst he
+    simp only [costep] at hok ⊢
+    cases hp : aGet c.pending t with
+    | none => simp [hp] at hok
+    | some p => exact ⟨p, rfl, rfl⟩
+  | completeCommit t =>
+    simp only [endOf, Option.some.injEq] at he; subst he
+    simp only [costep] at hok ⊢
+    cases hp : aGet c.pending t with
+    | none => simp [hp] at hok
+    | some p =>
+      simp only [hp] at hok ⊢
+      by_cases e : p.phase ≠ .committing
+      · rw [if_pos e] at hok; cases hok
+      · rw [if_neg e]; exact ⟨p, rfl, rfl⟩
+  | completeAbort t =>
+    simp only [endOf, Option.some.injEq] at he; subst he
+    simp only [costep] at hok ⊢
+    cases hp : aGet c.pending t with
+    | none => simp [hp] at hok
+    | some p =>
+      simp only [hp] at hok ⊢
+      by_cases e : p.phase ≠ .aborting
+      · rw [if_pos e] at hok; cases hok
+      · rw [if_neg e]; exact ⟨p, rfl, rfl⟩
+  | forceResolve t commit =>
+    simp only [endOf, Option.some.injEq] at he; subst he
+    simp only [costep] at hok ⊢
+    cases hp : aGet c.pending t with
+    | none => simp [hp] at hok
+    | some p =>
+      simp only [hp] at hok ⊢
+      cases commit with
+      | false => exact ⟨p, rfl, rfl⟩
+      | true =>
+        simp only [↓reduceIte] at hok ⊢
+        by_cases e : p.allYes = true ∨ p.phase = .prepared ∨ p.phase = .committing
+        · rw [if_pos e]; exact ⟨p, rfl, rfl⟩
+        · rw [if_neg e] at hok; cases hok
+  | begin _ => cases he
+  | prepare _ _ => cases he
+  | deliver _ _ => cases he
+  | voteNo _ _ => cases he
+  | cleanupTimeouts => cases he
+  | recover => cases he
+  | sweep _ => cases he
+  | advance _ => cases he
+  | saveLoad => cases he
+  | doom _ => cases he
 
 /-! ### every lock is accounted for -/
 
